@@ -69,7 +69,7 @@ def run(ctx):
     def model(cfg):
         def f():
             think, thina, m = CFG[cfg]
-            r = rc.tlc_ok(ctx, "RingReplica", cfg, coverage=(cfg == "MC_replica_full.cfg"),
+            r = rc.tlc_ok(ctx, "RingReplica", cfg, coverage=(cfg == "MC_replica_upd2.cfg"),
                           workers=(None if len(cfgs) == 1 else (2 * wk if cfg == "MC_replica_full.cfg" else wk)) or rc.WORKERS,
                           subst={"@@THINK@@": think, "@@THINA@@": thina, "@@THINR@@": ctx.seed % (think * thina)})
             if rc.zero_coverage(r):
